@@ -135,7 +135,7 @@ def order_property(prop: str, lvl: str, repo: str, tier: str) -> CheckResult:
             continue
         kind = schema.ROLES[cname][0]
         bad = [f for f in r['findings'] if f['rule'] == 'CONSERVE']
-        if kind in ('MOVE', 'SWAP', 'DELETE'):
+        if kind in ('MOVE', 'SWAP', 'DELETE', 'REPLACE', 'SEND'):
             res.add('CONSERVE', f'{cname}.merge', f'node conservation of a {kind} merge', not bad,
                     '; '.join(f['construct'] + ' ' + f['detail'] for f in bad), bad[0]['file'] if bad else '', bad[0]['line'] if bad else 0)
         bad = [f for f in r['findings'] if f['rule'] == 'RETURNS-RO']
@@ -146,6 +146,7 @@ def order_property(prop: str, lvl: str, repo: str, tier: str) -> CheckResult:
         for f in enum_bad:
             res.add('ENUM-PER-ID', f['func'], f['construct'], False, f['detail'], f['file'], f['line'], f['witness'])
     add_findings(res, results, {'UNMODELLED-MUTATION'}, want, as_rule=lambda f: 'IDX')
+    add_findings(res, results, {'SWAP-EXCHANGE'}, want, as_rule=lambda f: 'CONSERVE')
     if lvl == 'item':
         add_sites(res, {c: r for c, r in results.items() if want_c(c)}, 'item-lookup', 'STORY-SCOPED')
         add_findings(res, results, {'STORY-SCOPED'}, want)
@@ -208,7 +209,13 @@ def prop_C04(repo, tier):
     # index typestate on the deep copy (conversion) belongs here
     add_findings(res, results, IDX_RULES, want=lambda c, f: 'convert' in f['func'] or f['func'].startswith('RunningOrderReplace'),
                  as_rule=lambda f: 'SPLICE')
-    res.floors = {'PAYLOAD-PURE': 12, 'SPLICE': 2, 'PAYLOAD-ALL': 8}
+    res.rules['RO-REPLACE'] = 'roReplace removes the running-order element and inserts the deep copy of the carried one, re-tagged roCreate, in its place'
+    for cname, r in results.items():
+        if schema.ROLES[cname][0] == 'ROREPLACE':
+            ops = {tuple(map(tuple, o['rootops'])) for o in r['outcomes'] if o['result'] == 'return' and not o.get('guard_present')}
+            ok = ops == {(('remove', 'roCreate', 'RO'), ('insert', 'roCreate', 'COPY'))}
+            res.add('RO-REPLACE', f'{cname}.merge', 'remove(roCreate) ; insert(deepcopy re-tagged roCreate)', ok, '' if ok else f'root operations: {sorted(ops)}')
+    res.floors = {'PAYLOAD-PURE': 12, 'SPLICE': 2, 'PAYLOAD-ALL': 8, 'RO-REPLACE': 1}
     res.explanation = (
         'Static analysis of the payload flow in all merges: every carried element reaches its insertion through identity or '
         'copy.deepcopy (PAYLOAD-PURE), no message/payload subtree is edited except the two documented conversions (retag to '
